@@ -100,29 +100,18 @@ func checkC15(w *Worker) {
 	if w.Tier == "thorough" {
 		max1 = 3
 	}
-	w.Explore("register-presentation", ExploreOpts{ShardDepth: 6}, func(x *Exec) {
+	present := func(x *Exec, mkLog func(x *Exec) (absLog, string)) {
 		ci := x.Choose(len(colours), "config:colour")
 		ti := x.Choose(len(templates), "config:template")
 		sh := x.Choose(2, "config:shorten")
-		genDay := func(date string, max int) absDay {
-			d := absDay{Date: date}
-			n := x.Choose(max+1, "input:entries")
-			for i := 0; i < n; i++ {
-				d.Entries = append(d.Entries, absIng{c15Foods[x.Choose(len(c15Foods), "input:food")], c15Qty[x.Choose(len(c15Qty), "input:qty")]})
-			}
-			return d
-		}
-		lg := absLog{genDay("2021/01/24", max1)}
-		if x.Choose(2, "input:secondday") == 1 {
-			lg = append(lg, genDay("2021/01/25", 1))
-		}
+		lg, bookText := mkLog(x)
 		logText := renderLog(lg)
 		files := map[string]string{"food.yaml": bookText, "log.yaml": logText}
 		refCase := appCase{Args: []string{"--no-color", "reg"}, Files: files}
-		refRun, ok := refRunCache[logText]
+		refRun, ok := refRunCache[logText+"\x00"+bookText]
 		if !ok {
 			refRun = runApp(refCase)
-			refRunCache[logText] = refRun
+			refRunCache[logText+"\x00"+bookText] = refRun
 		} else {
 			logRun(refCase, refRun)
 		}
@@ -231,6 +220,10 @@ func checkC15(w *Worker) {
 					viol("different-records", fmt.Sprintf("total row %v, reference %v\n%s", gt, rt, rDef.Stdout), cDef)
 					return
 				}
+				if shortening && utf8.RuneCountInString(gt.Name) > 20 {
+					viol("shortened-name-too-wide", fmt.Sprintf("total row: %q has %d runes", gt.Name, utf8.RuneCountInString(gt.Name)), cDef)
+					return
+				}
 			}
 		}
 		// default = no-totals and totals-only interleaved per day, byte-wise
@@ -249,6 +242,46 @@ func checkC15(w *Worker) {
 				return
 			}
 		}
+	}
+	w.Explore("register-presentation", ExploreOpts{ShardDepth: 6}, func(x *Exec) {
+		present(x, func(x *Exec) (absLog, string) {
+			genDay := func(date string, max int) absDay {
+				d := absDay{Date: date}
+				n := x.Choose(max+1, "input:entries")
+				for i := 0; i < n; i++ {
+					d.Entries = append(d.Entries, absIng{c15Foods[x.Choose(len(c15Foods), "input:food")], c15Qty[x.Choose(len(c15Qty), "input:qty")]})
+				}
+				return d
+			}
+			lg := absLog{genDay("2021/01/24", max1)}
+			if x.Choose(2, "input:secondday") == 1 {
+				lg = append(lg, genDay("2021/01/25", 1))
+			}
+			return lg, bookText
+		})
+	})
+	// names of every length around the two column widths of the default register (27 for the logged food, 20 for
+	// ingredients and totals): a food the book does not define is shown in both columns and in the totals
+	w.Explore("name-lengths-around-the-column-widths", ExploreOpts{ShardDepth: 5}, func(x *Exec) {
+		present(x, func(x *Exec) (absLog, string) {
+			L := 17 + x.Choose(15, "input:name-length") // 17..31
+			kind := x.Choose(3, "input:kind-of-name")   // unknown food (ASCII), unknown food (two-byte letters), food of the book with an element of that length
+			two := x.Choose(2, "input:second-entry")
+			unit := "cheese/gouda/aged/slice/of/the/day/and/more"
+			if kind == 1 {
+				unit = "сирене/гауда/отлежало/парче/на/деня/и/още"
+			}
+			name := string([]rune(unit)[:L])
+			book := "r1:\n  cal: 2\n  fat: -0.5\n"
+			if kind == 2 {
+				book += name + ":\n  " + string([]rune("element/" + unit)[:L]) + ": 1.5\n  cal: -1\n"
+			}
+			d := absDay{Date: "2021/01/24", Entries: []absIng{{name, 2}}}
+			if two == 1 {
+				d.Entries = []absIng{{"r1", 1}, {name, -1}, {name + "x", 0.5}}
+			}
+			return absLog{d, {Date: "2021/01/25", Entries: []absIng{{name, 1}}}}, book
+		})
 	})
 	// collapse modes of the balance change only the layout: same leaf paths, same amounts (prefix-free food sets)
 	uni := pathUniverse([]string{"a", "b"}, 3)
